@@ -152,7 +152,7 @@ struct ChaosRun : NodeEnv {
 };
 
 Plan gen_chaos(Rng &r, bool thorough) {
-    Plan p; p.cfg["feat"] = r.chance(1, 3) ? 0xFFFF : (int64_t)(r.next() & 0xFFFF); p.cfg["dictseed"] = (int64_t)r.below(1000000); p.cfg["nodeid"] = r.pick<int64_t>({1, 1, 2, 64, 127});
+    Plan p; p.cfg["appcmd"] = r.chance(1, 3); p.cfg["feat"] = r.chance(1, 3) ? 0xFFFF : (int64_t)(r.next() & 0xFFFF); p.cfg["dictseed"] = (int64_t)r.below(1000000); p.cfg["nodeid"] = r.pick<int64_t>({1, 1, 2, 64, 127});
     p.cfg["freq"] = r.pick<int64_t>({1000, 1000, 100, 10000, 1000000, 300}); p.cfg["tmrnum"] = r.chance(1, 4) ? r.range(1, 3) : r.range(4, 24); p.cfg["rxdepth"] = r.pick<int64_t>({1, 2, 8, 64}); p.cfg["strict"] = r.chance(1, 2); p.cfg["dictextra"] = r.below(3);
     p.cfg["histdepth"] = r.below(9); p.cfg["nsub"] = r.below(5); p.cfg["ncons"] = r.below(4); p.cfg["hb"] = r.pick<int64_t>({0, 1, 5, 50}); p.cfg["synccycle"] = r.pick<int64_t>({0, 1000, 5000, 100}); p.cfg["nrpdo"] = r.below(5); p.cfg["ntpdo"] = r.below(5); p.cfg["ncsdo"] = r.below(2); p.cfg["start"] = r.chance(9, 10);
     p.cfg["dom0"] = r.range(1, 64); p.cfg["dom1"] = r.pick<int64_t>({7, 8, 889, 890, 100}); p.cfg["dom2"] = r.pick<int64_t>({4000, 1000, 1778}); p.cfg["dom5"] = r.range(1, 4);
